@@ -709,7 +709,17 @@ impl InvalidLiquidToken<'_> {
         // Reparses from the line where invalid liquid started, in order
         // to raise the error.
         let mut error = match LiquidParser::parse(Rule::LiquidFile, &text) {
-            Ok(_) => panic!("`LiquidParser::parse` should fail in InvalidLiquidTokens."),
+            // The reconstructed text is not always the original one (the column is a character
+            // count used as a byte offset, and the tail may begin inside a string literal), so
+            // it can happen to be valid: still report the invalid token.
+            Ok(_) => {
+                return Err(convert_pest_error(::pest::error::Error::new_from_span(
+                    ::pest::error::ErrorVariant::CustomError {
+                        message: "Invalid liquid syntax.".to_string(),
+                    },
+                    invalid_token_span,
+                )));
+            }
             Err(error) => error,
         };
 
